@@ -12,6 +12,10 @@ the proof exactly "decryption is the mirrored composition" (clause a).
 
 Types whose inverse relies on algebra outside the rewrite system (AES, ARIA, IDEA, Serpent, Kuznyechik, GIFT, the
 DES core, 48/96-bit Speck words on a wider carrier) are reported as *undecided*, not as passes.
+
+BelT wide block: belt_wblock_dec(belt_wblock_enc(d)) = d and the other order are proved the same way on a symbolic
+buffer for every enumerated length (quick: 32..=49, 63..65, 100; thorough: 32..=129, 255..257); other lengths are not
+decided (the cost of the term proof grows quadratically with the length).
 """
 import os
 from facts import *
@@ -60,6 +64,7 @@ def prove_type(job):
         for gk in (group_keys or [[]]):
             gk = [tuple(x) for x in gk if x[0] != 'conv'] if gk and gk[0] != 'conv' else []
             for first in ('enc', 'dec'):
+                engine._INTERPS.clear()
                 I = engine.mk_interp(m, 30_000_000)
                 if tyname in TDES:
                     I.summaries = {'des::des::Des::encrypt': 'desE', 'des::des::Des::decrypt': 'desD'}
@@ -73,6 +78,24 @@ def prove_type(job):
                     ok, detail = False, 'analysis error: %r %s' % (e, traceback.format_exc()[-300:])
                 out.append(dict(group=[list(x) for x in gk], first=first, ok=ok, detail=detail))
     return (cfgname, tyname, out)
+
+
+WBLOCK_QUICK = list(range(32, 50)) + [63, 64, 65, 100]
+WBLOCK_THOROUGH = list(range(32, 130)) + [255, 256, 257]
+
+
+def prove_wblock(job):
+    cfgname, fdir, n = job
+    F = Facts(cfgname, fdir)
+    out = []
+    with equiv.TermMode():
+        for first in ('enc', 'dec'):
+            try:
+                ok, detail = equiv.wblock_roundtrip(F.mono, n, first)
+            except Exception as e:
+                ok, detail = False, 'analysis error: %r' % e
+            out.append((first, ok, detail))
+    return (cfgname, n, out)
 
 
 def run(chk, facts_by_config):
@@ -90,8 +113,23 @@ def run(chk, facts_by_config):
             gks = r.get('group_keys') or [[]]
             gks = [g for g in gks if not (g and g[0] == 'conv')] or [[]]
             jobs.append((cfgname, F.dir, t['ty'], tyname, gks))
+    wjobs = [(c, F.dir, n) for c, F in facts_by_config.items()
+             for n in (WBLOCK_THOROUGH if chk.tier == 'thorough' else WBLOCK_QUICK)]
+    wjobs.sort(key=lambda j: -j[2])
     with mp.Pool(min(16, os.cpu_count() or 4)) as pool:
+        wasync = pool.map_async(prove_wblock, wjobs, chunksize=1)
         results = pool.map(prove_type, jobs, chunksize=1)
+        wresults = wasync.get()
+    for (cfgname, n, outs) in sorted(wresults):
+        for (first, ok, detail) in outs:
+            key = '%s|belt_wblock|len=%d|%s-first' % (cfgname, n, first)
+            if ok:
+                chk.ok('wblock-roundtrip', key, dict(length=n, order=first + ' first', proved=detail) if n in (32, 33) else None)
+            elif ok is None:
+                chk.fail_closed('wblock-roundtrip', key, detail)
+            else:
+                chk.violation('wblock-roundtrip', key, 'belt_wblock %s(%s(d)) = d on a %d-byte buffer could not be established by value numbering: %s' % (
+                    'dec' if first == 'enc' else 'enc', first, n, detail[:300]))
     proved = {}
     for (cfgname, tyname, outs) in sorted(results):
         n_ok = sum(1 for o in outs if o['ok'])
